@@ -397,12 +397,12 @@ theorem lastPtrIs_of_last {pre post : Trace} {x : DlvE} {h : Nat} {s : Svc} {t2 
   rw [dlvs_append, hcons, List.filter_append, List.filter_cons_of_pos (by simp [hxh, hp, ht]), hnil]
   simp
 
-theorem refreshWindow_early {t e tb : Int} (h : tb + 120 + 14000 + 10000 ≤ t + 750 * e) (second : Bool) :
+theorem refreshWindow_early {t e tb : Int} (h : tb + 120 + 14000 + 10000 + 999 ≤ t + 750 * e) (second : Bool) :
     refreshWindow Cfg.paper t e tb second
-      = (t + (if second then 850 else 750) * e - 10000 - 999, t + (if second then 850 else 750) * e + 30000) := by
+      = (t + (if second then 850 else 750) * e - 10000 - 2 * 999, t + (if second then 850 else 750) * e + 30000) := by
   simp [refreshWindow, h]
 
-theorem refreshWindow_late {t e tb : Int} (h : ¬ tb + 120 + 14000 + 10000 ≤ t + 750 * e) (second : Bool) :
+theorem refreshWindow_late {t e tb : Int} (h : ¬ tb + 120 + 14000 + 10000 + 999 ≤ t + 750 * e) (second : Bool) :
     refreshWindow Cfg.paper t e tb second
       = (tb + 20 + (if second then 14000 else 5000) - 999, tb + 120 + (if second then 14000 else 5000)) := by
   cases second <;> simp [refreshWindow, h]
